@@ -1,4 +1,5 @@
 import Mp4ff.Model.Boxes
+import Mp4ff.Generated.Facts
 /-!
 M4b: the **nested** round trip.  `DecodeBox`/`DecodeBoxSR` followed by `Encode` on exactly one box that may be a
 plain container (mp4/container.go `DecodeContainerChildren[SR]`, `EncodeContainer[SW]`, `containerSize`; the
@@ -145,7 +146,13 @@ def rtBox : Nat → Bytes → Res
                 else .encFails
       | none =>
         match roundTrip bs with
-        | .unmodelled => .unmodelled
+        | .unmodelled =>
+          -- a type the decoder registry (regenerated from mp4/box.go on every run) does not know is kept verbatim by
+          -- `DecodeUnknown[SR]` and written back behind an 8-byte header (mp4/unknown.go)
+          if Generated.decoderKeys.contains ty then .unmodelled
+          else
+            let payload := bs.drop hl
+            .ok (beBytes 4 (8 + payload.length) ++ (bs.drop 4).take 4 ++ payload) []
         | .rejected => .rejected
         | .encFails => .encFails
         | .ok _ enc dc => .ok enc dc
